@@ -10,6 +10,9 @@ OPS = {
   'OpsThree': {'o1': ('call', [False]), 'o2': ('batch', [False, False]), 'o3': ('call', [False])},
 }
 
+CTX_KINDS = ['', '', 'deadline', 'cancelcause', 'deadlinecause', 'childofcause']
+CB_OUTS = ['ok', 'ok', 'err:7', 'err:plain', 'err:baddata', 'badresult', 'panic']
+
 def cfg_info(cfgname):
     t = C.read_cfg(cfgname)
     ops = re.search(r'Ops <- (\w+)', t).group(1)
@@ -22,7 +25,10 @@ def convert(beh, rng, name, ops, opts, steer=True):
         if act == 'StartOp':
             kind, specs = ops[a[0]]
             if kind == 'call' and rng.random() < 0.25: kind = 'callresult'
-            steps.append(dict(a='op', op=a[0], kind=kind, specs=specs))
+            st = dict(a='op', op=a[0], kind=kind, specs=specs)
+            ck = rng.choice(CTX_KINDS)
+            if ck: st['ctxkind'] = ck
+            steps.append(st)
         elif act == 'OpReq': steps.append(dict(a='gate', site='cli.req.lock', op=a[0]))
         elif act == 'OpSend': steps.append(dict(a='gate', site='cli.send.lock', op=a[0]))
         elif act == 'CtxEnd': steps.append(dict(a='ctxend', op=a[0]))
@@ -39,7 +45,7 @@ def convert(beh, rng, name, ops, opts, steer=True):
         elif act == 'CloseReturn': steps.append(dict(a='closereturn'))
         elif act == 'DeliverMsg': steps.append(dict(a='gate', site='cli.deliver.lock', m=a[0]))
         elif act == 'WatcherFire': steps.append(dict(a='gate', site='cli.waitcomplete.lock', id=str(a[0]), soft=True))
-        elif act == 'CbReturn': steps.append(dict(a='cbret', id=str(a[0])))
+        elif act == 'CbReturn': steps.append(dict(a='cbret', id=str(a[0]), out=rng.choice(CB_OUTS)))
         elif act == 'CbReply': steps.append(dict(a='gate', site='cli.cbreply.lock', id=str(a[0])))
         else: raise C.ToolError('unknown ClientImpl action %s' % act)
     if not steer:
@@ -76,13 +82,22 @@ def directed(rng):
         add('bad-live-%d' % v, {}, [op('o1'), op('o2', 'batch', [False, True, False]), D, peer(B(1 + v), R(9)), D, peer(R(1), R(2), R(3)), D])
         add('bad-batch-%d' % v, {}, [op('o1', 'batch', [False, True, False, False]), D, peer(R(3), R(9), B(2), R(1)), D])
         add('srvreq-%d' % v, {'callback': True}, [op('o1'), D, peer(('note', 0, False), ('call', 7, False), R(1, e)), D, dict(a='cbret', id='7'), D])
+        # whatever a callback handler returns (errors that cannot be encoded, results that cannot, a panic), one complete reply goes out
+        add('cb-outcomes-%d' % v, {'callback': True}, [peer(('call', 7, False)), peer(('call', 8, False)), D, dict(a='cbret', id='7', out=['err:baddata', 'badresult', 'panic'][v]), D,
+                                                       dict(a='cbret', id='8', out=['err:7', 'err:plain', 'err:baddata'][v]), D, op('o1'), D, peer(R(1)), D])
+        # a server-initiated call that fails validation and carries the id of a pending request of ours is not that request's reply
+        add('badcall-collide-%d' % v, {'callback': bool(v % 2)}, [op('o1'), op('o2', 'batch', [False, False]), D, peer(('badcall', 1 + v, False)), D, peer(('badcall', 2, False), R(3, e)), D,
+                                                                 peer(R(1), R(2)), D] + ([dict(a='cbret', id=str(1 + v)), dict(a='cbret', id='2'), D] if v % 2 else []))
         add('cancel-%d' % v, {}, [op('o1'), op('o2'), D, dict(a='ctxend', op='o1'), D, peer(R(1)), peer(R(2, e)), D])
         add('cancel-race-%d' % v, {}, [op('o1'), D, dict(a='ctxend', op='o1'), peer(R(1)), D])
         add('deadline-%d' % v, {}, [op('o1', ctxkind='deadline'), op('o2', 'batch', [False, False]), D, dict(a='ctxend', op='o1'), D, peer(R(2), R(3)), D])
+        add('cancel-cause-%d' % v, {}, [op('o1', ctxkind=['cancelcause', 'deadlinecause', 'childofcause'][v]), op('o2', 'batch', [False, False], ctxkind=['childofcause', 'cancelcause', 'deadlinecause'][v]), D,
+                                        dict(a='ctxend', op='o1'), D, dict(a='ctxend', op='o2'), D, peer(R(1), R(2), R(3)), D])
         add('cancel-before-send-%d' % v, {}, [op('o1'), dict(a='ctxend', op='o1'), D])
         add('close-pending-%d' % v, {'recvUnblocks': e}, [op('o1'), op('o2', 'batch', [False, True]), D, dict(a='close'), D, op('o3'), op('o4', 'notify'), D])
         add('eof-pending-%d' % v, {}, [op('o1'), D, dict(a='peerclose'), D, op('o2'), D])
         add('recverr-%d' % v, {}, [op('o1'), D, dict(a='recverr'), D, op('o2', 'notify'), D])
+        add('recvclosing-%d' % v, {}, [op('o1'), D, dict(a='recvclosing'), D, op('o2', 'notify'), D])
         add('garbage-%d' % v, {}, [op('o1'), D, dict(a='garbage'), D, op('o2'), D])
         add('sendfail-%d' % v, {}, [dict(a='sendfail'), op('o1'), op('o2', 'batch', [False, True]), op('o3', 'notify'), D])
         # a transient send failure: the failed operation leaves nothing behind, later ones work, ids stay unique
